@@ -30,6 +30,11 @@ pub struct Crash {
     /// 0 Propose, 1 Vote, 2 Timeout, 3 TC), so that a crash can split one particular broadcast
     pub after_kind: Option<(u32, u64)>,
     pub kind_written: u64,
+    /// ... or in the middle of its k-th broadcast (k-th distinct instant) of one message kind: that
+    /// broadcast reaches only the listed recipients (a crash inside the send loop, whose order is
+    /// arbitrary), nothing it writes afterwards is delivered
+    pub split: Option<(u32, u64, Vec<u32>)>,
+    pub split_seen: Vec<u64>,
     /// frames it wrote before the crash point are still delivered (delayed, not lost)
     pub crashed: bool,
 }
@@ -137,6 +142,24 @@ pub fn install_policy(ctl: SharedCtl) {
                     }
                     if let Some(k) = cr.after_frames {
                         if written > k {
+                            cr.crashed = true;
+                        }
+                    }
+                    if let Some((kind, k, keep)) = cr.split.clone() {
+                        if consensus_kind(info, payload) == Some(kind) {
+                            if !cr.split_seen.contains(&now) {
+                                cr.split_seen.push(now);
+                            }
+                            if cr.split_seen.len() as u64 == k + 1 {
+                                // the split broadcast: deliver to the chosen recipients only
+                                if !keep.contains(&dst) {
+                                    return FrameDecision::Drop;
+                                }
+                            } else if cr.split_seen.len() as u64 > k + 1 {
+                                cr.crashed = true;
+                            }
+                        } else if cr.split_seen.len() as u64 > k {
+                            // anything else written after the split broadcast began
                             cr.crashed = true;
                         }
                     }
